@@ -33,9 +33,9 @@ CHECKS = {
             COMMON, 'deterministic simulation: seeded histories with cache-state perturbation vs reference model'),
     'C09': ('DESIGN 5.4', 'Seeded search over interleavings of growth calls (setitem, extend Frame/Series, extend_items, append, extend; valid, duplicate, partially duplicate, mis-sized, unaligned, failing-iterable arguments) with derivations and reads over a pool of aliasing containers; prefix, lock-step, atomicity (incl. usability after a failed call, against a twin built from the model) and isolation oracles after every step.',
             COMMON, 'deterministic simulation with argument-induced fault injection (rejected / failing growth calls), model checked after every step'),
-    'C17': ('DESIGN 5.5', 'Seeded search over access histories on lazily loaded Buses (max_persist None/1..n, zip-pickle/csv/tsv and SQLite, per-label configs, derived and re-exported Buses) interleaved with file-system fault events (touch, rewrite, replace, older copy, truncate, delete, recreate, restore, I/O errors inside the mtime check) under a simulated file clock; faithful/lazy/bound/LRU/same/placeholder/stale/heal oracles after every step.',
+    'C17': ('DESIGN 5.5', 'Seeded search over access histories on lazily loaded Buses (max_persist None/1..n, zip-pickle/csv/tsv and SQLite, per-label configs, derived and re-exported Buses) interleaved with file-system fault events (touch, rewrite, replace, older copy, truncate, delete, recreate, restore, I/O errors inside the mtime check, an I/O error while the n-th member of the archive is read) under a simulated file clock, with label encoders, caller-owned configuration dicts and zipped stores read and written on the simulated worker pool; faithful/lazy/bound/LRU/same/placeholder/stale/heal oracles after every step.',
             COMMON + '; real files on tmpfs whose mtimes are stamped from the simulated clock', 'deterministic simulation: simulated file clock + file-system fault injection, history oracles (LRU, staleness, bounded heal)'),
-    'C18': ('DESIGN 5.6', 'Seeded search over pool schedules: (a) task-granular simulated executor for thread and process pools (completion order, completion at submit time, chunking, worker counts, pickle round trips, task failures, worker crashes, unpicklable tasks) over every iterator interface, Batch chains and zipped stores with workers; (b) pre-emptive thread mode: real threads under a baton scheduler pre-empted at line events inside static_frame, simulator-owned locks. Pool result compared with the sequential form.',
+    'C18': ('DESIGN 5.6', 'Seeded search over pool schedules: (a) task-granular simulated executor for thread and process pools (completion order, completion at submit time, chunking, worker counts, pickle round trips, task failures, worker crashes, unpicklable tasks) over every iterator interface, Batch chains and zipped stores with workers; (b) pre-emptive thread mode: real threads under a baton scheduler pre-empted at line events inside static_frame (uniformly, biased to state-writing functions, stalled inside them, or stalled right after a simulated lock is released), simulator-owned locks. Pool result compared with the sequential form.',
             COMMON + '; the executor stub implements the documented concurrent.futures contract of CPython 3.12', 'deterministic simulation: seeded simulated executor (completion orders, crashes) + baton-scheduled pre-emptive threads vs sequential form'),
     'C19': ('DESIGN 5.7', 'Seeded search over Quilt programs (shape, labels, iloc/loc/HLoc selection spanning member frames, iteration, export) interleaved with direct accesses to the underlying lazily loaded, LRU-bounded store-backed Bus and file events, and Batch chains through the simulated pool; every result compared with the same operation on a plain-NumPy reference table.',
             COMMON, 'deterministic simulation: LRU/eviction histories on the backing Bus + simulated pool vs NumPy reference table'),
